@@ -194,14 +194,18 @@ def _area(label, labels_per_idx, clps_per_idx, intervals, axis):
     vals = []
     axis = np.asarray(axis, dtype=float)
     for iv in intervals:
-        lo, hi = _num(iv[0]), _num(iv[1])
+        lo, hi = sorted((_num(iv[0]), _num(iv[1])))      # fix D23: bounds ordered first
         if lo > axis[-1]:
             continue
         lo, hi = max(lo, axis.min()), min(hi, axis.max())
         if lo > hi:
             lo, hi = hi, lo
-        s = 0 if np.isinf(lo) else int(np.abs(axis - lo).argmin())
-        e = len(axis) if np.isinf(hi) else int(np.abs(axis - hi).argmin()) + 1
+
+        def near(b):                                     # fix D22: -inf -> first, +inf -> last point
+            if np.isinf(b):
+                return 0 if b < 0 else len(axis) - 1
+            return int(np.abs(axis - b).argmin())
+        s, e = near(lo), near(hi) + 1
         for i in range(s, e):
             if label in labels_per_idx[i]:
                 vals.append(clps_per_idx[i][label])
